@@ -158,7 +158,9 @@ Definition combinations_with (ct : nfilter -> list Z -> option bool)
         end)) chs)
     (fun combo_list =>
   let combo_list := filter (fun c => negb (length c =? 0)%nat) combo_list in
-  Some (if make_size2 then map (fold_pairs size) combo_list else combo_list))).
+  (* sliding_window_view with a window (m, 2) wider than an (m, 1) array raises ValueError *)
+  if make_size2 && (size <? 2)%nat && negb (length combo_list =? 0)%nat then None
+  else Some (if make_size2 then map (fold_pairs size) combo_list else combo_list))).
 
 Definition combinations := combinations_with chord_filter.
 
